@@ -115,17 +115,21 @@ def build_domain(d):
     return Domain([Range(lo, hi) for lo, hi in d["ranges"]], list(d["elems"]))
 
 
-def build_feature(f, parent=None):
+def build_feature(f, parent=None, via_set=False):
     from flamapy.metamodels.fm_metamodel.models import Feature, Relation, Attribute
     from flamapy.metamodels.fm_metamodel.models.feature_model import FeatureType, Cardinality
     feat = Feature(f["name"], parent=parent, is_abstract=f["abstract"],
                    feature_type=FeatureType(f["type"]),
                    feature_cardinality=Cardinality(f["cmin"], f["cmax"]))
-    for a in f["attrs"]:
-        attr = Attribute(a["name"], build_domain(a["domain"]), _copy(a["default"]), _copy(a["null"]))
-        feat.add_attribute(attr)
+    attrs = [Attribute(a["name"], build_domain(a["domain"]), _copy(a["default"]), _copy(a["null"]))
+             for a in f["attrs"]]
+    if via_set and attrs:
+        feat.set_attributes(attrs)        # the other public way to give a feature its attributes
+    else:
+        for attr in attrs:
+            feat.add_attribute(attr)
     for r in f["rels"]:
-        children = [build_feature(c, feat) for c in r["children"]]
+        children = [build_feature(c, feat, via_set) for c in r["children"]]
         feat.add_relation(Relation(feat, children, r["min"], r["max"]))
     return feat
 
@@ -135,12 +139,27 @@ def _copy(v):
     return copy.deepcopy(v)
 
 
-def build_fm(m):
+def build_fm_plain(m, via_set=False):
     from flamapy.metamodels.fm_metamodel.models import FeatureModel, Constraint
     from flamapy.core.models.ast import AST
-    root = build_feature(m["root"])
+    root = build_feature(m["root"], None, via_set)
     ctcs = [Constraint(n, AST(build_node(a))) for n, a in m["ctcs"]]
     return FeatureModel(root, ctcs)
+
+
+def build_fm(m, mode=None):
+    """the live model of a spec.  Half of the specs are built top-down from fresh objects; the others reach the same
+    content through a history of public calls (harness/live.py): the choice is a function of the spec"""
+    import os
+    import live
+    chosen, h = live.mode_of(m)
+    if mode is None:
+        mode = live.PLAIN if os.environ.get("VERIF_PLAIN_BUILD") else chosen
+    if mode == live.HISTORY:
+        return live.build_history(m, h, lambda s: build_fm_plain(s, True))
+    if mode == live.DETOUR:
+        return live.build_detour(m, h, lambda s: build_fm_plain(s, True))
+    return build_fm_plain(m)
 
 
 # ---------------------------------------------------------------- live objects -> spec
@@ -247,9 +266,13 @@ def retarget(fm, b):
             for ch, cb in zip(rel.children, rb["children"]):
                 walk(ch, cb)
     walk(fm.root, b["root"])
-    for c, (name, node) in zip(fm.ctcs, b["ctcs"]):
+    for i, (c, (name, node)) in enumerate(zip(fm.ctcs, b["ctcs"])):
         c.name = name
-        c.ast = AST(build_node(node))
+        if i % 2:
+            c.ast.root = build_node(node)     # the tree edited in place
+        else:
+            c.ast = AST(build_node(node))     # the tree replaced through the setter
+    fm.ctcs = list(fm.ctcs)                   # and the list rebound
 
 
 def same_shape_variant(m, rng):
